@@ -37,6 +37,7 @@ type docSpec struct {
 	fields    map[string][]string
 	urlFrags  []string
 	sortRules []string // sorting rules of the URL (they show in the self link of collection URLs)
+	lateType  bool     // soft collection: the members are added before the collection is given its type
 }
 
 func (d docSpec) buildRes(rs resSpec) jsonapi.Resource {
@@ -67,9 +68,14 @@ func (d docSpec) build() (*jsonapi.Document, *jsonapi.URL) {
 	case "soft-collection":
 		typ := d.sc.spec(d.colType).softType()
 		col := &jsonapi.SoftCollection{}
-		col.SetType(&typ)
+		if !d.lateType {
+			col.SetType(&typ)
+		}
 		for _, rs := range d.data {
 			col.Add(d.buildRes(rs))
+		}
+		if d.lateType {
+			col.SetType(&typ)
 		}
 		doc.Data = col
 	case "wrapper-collection":
@@ -354,6 +360,7 @@ func randDoc(r *rng) docSpec {
 		d.urlFrags = []string{tn, "x"}
 	case "soft-collection":
 		d.colType = tn
+		d.lateType = r.chance(1, 3)
 		sc.wrapped[tn] = false
 		for i := 0; i < n; i++ {
 			d.data = append(d.data, randResSpec(r, sc, tn, uid(i)))
